@@ -162,7 +162,7 @@ func checkC06(c *Ctx, r *Report) {
 // options. parseTags must compare nothing but elements of index >= 1 of the split tag with its
 // option words: a field renamed to "ignore" or "inline" is a field with that name, not an option.
 func tagNameRule(c *Ctx, r *Report) {
-	r.Rule("R06g", "parseTags interprets only the parts after the first comma as options: every comparison with an option word reads an element of index >= 1 of the split tag", 4)
+	r.Rule("R06g", "parseTags interprets only the parts after the first comma as options: every comparison with an option word reads an element of index >= 1 of the split tag (or text behind a separator found in it)", 4)
 	fn := c.Func("", "parseTags")
 	n := 0
 	Instrs(fn, false, func(in ssa.Instruction) {
@@ -194,10 +194,53 @@ func tagNameRule(c *Ctx, r *Report) {
 // elementFromIndexOne: v is an element of a slice re-sliced from index >= 1 (x[1:]), or x[i] with a
 // counter that starts at a constant >= 1.
 func elementFromIndexOne(v ssa.Value, d int) (bool, string) {
-	if d > 6 {
+	return (&tagPartProv{seen: map[ssa.Value]bool{}}).from(v, d)
+}
+
+type tagPartProv struct{ seen map[ssa.Value]bool }
+
+func (e *tagPartProv) from(v ssa.Value, d int) (bool, string) {
+	if d > 8 {
 		return false, "too deep"
 	}
+	if e.seen[v] {
+		return true, "loop-carried"
+	}
 	switch x := v.(type) {
+	case *ssa.Const:
+		// a constant is not the name part
+		return true, "constant"
+	case *ssa.Slice:
+		// a hand-written scanner: text behind a separator found in the tag (tag[i+1:] with i the non-negative result of
+		// an index search in the same text), and any substring of such a text
+		if bt, ok := x.X.Type().Underlying().(*types.Basic); !ok || bt.Info()&types.IsString == 0 {
+			return false, "not an element of the split tag"
+		}
+		if ok, _ := e.from(x.X, d+1); ok {
+			if _, isConst := x.X.(*ssa.Const); !isConst {
+				return true, "substring of the text behind the name"
+			}
+		}
+		if x.Low != nil {
+			if add, ok := x.Low.(*ssa.BinOp); ok && add.Op == token.ADD {
+				idx, k := add.X, add.Y
+				if _, isK := ConstInt(idx); isK {
+					idx, k = k, idx
+				}
+				if kk, isK := ConstInt(k); isK && kk >= 1 {
+					if call, ok := idx.(*ssa.Call); ok {
+						if f := call.Call.StaticCallee(); f != nil && len(call.Call.Args) == 2 && SameValue(call.Call.Args[0], x.X) &&
+							(f.String() == "strings.IndexByte" || f.String() == "strings.Index" || f.String() == "strings.IndexRune" || f.String() == "strings.LastIndexByte" || f.String() == "strings.LastIndex") {
+							if indexFound(call, x.Block()) {
+								return true, "text behind a separator of the tag"
+							}
+							return false, "text behind an index that can be -1: the whole tag"
+						}
+					}
+				}
+			}
+		}
+		return false, "substring that can contain the name part"
 	case *ssa.UnOp:
 		if x.Op != token.MUL {
 			return false, "not an element load"
@@ -207,7 +250,7 @@ func elementFromIndexOne(v ssa.Value, d int) (bool, string) {
 			// range variable spilled into a local
 			if vals, ok := localStores(x.X); ok && len(vals) > 0 {
 				for _, s := range vals {
-					if ok, why := elementFromIndexOne(s, d+1); !ok {
+					if ok, why := e.from(s, d+1); !ok {
 						return false, why
 					}
 				}
@@ -239,8 +282,9 @@ func elementFromIndexOne(v ssa.Value, d int) (bool, string) {
 		}
 		return false, "element of the whole split tag, index can be 0"
 	case *ssa.Phi:
-		for _, e := range x.Edges {
-			if ok, why := elementFromIndexOne(e, d+1); !ok {
+		e.seen[x] = true
+		for _, ed := range x.Edges {
+			if ok, why := e.from(ed, d+1); !ok {
 				return false, why
 			}
 		}
@@ -248,10 +292,62 @@ func elementFromIndexOne(v ssa.Value, d int) (bool, string) {
 	case *ssa.Call:
 		// strings.TrimSpace(elem) and the like keep the provenance
 		if f := x.Call.StaticCallee(); f != nil && f.Pkg != nil && f.Pkg.Pkg.Path() == "strings" && len(x.Call.Args) >= 1 {
-			return elementFromIndexOne(x.Call.Args[0], d+1)
+			return e.from(x.Call.Args[0], d+1)
 		}
 	}
 	return false, "not an element of the split tag"
+}
+
+// indexFound: the result of an index search is known to be non-negative in block at (a dominating test).
+func indexFound(idx ssa.Value, at *ssa.BasicBlock) bool {
+	for _, cd := range ExpandConds(DomConds(at)) {
+		bo, ok := cd.V.(*ssa.BinOp)
+		if !ok {
+			continue
+		}
+		x, y, op := bo.X, bo.Y, bo.Op
+		if y == idx {
+			x, y = y, x
+			switch op {
+			case token.LSS:
+				op = token.GTR
+			case token.GTR:
+				op = token.LSS
+			case token.LEQ:
+				op = token.GEQ
+			case token.GEQ:
+				op = token.LEQ
+			}
+		}
+		if x != idx {
+			continue
+		}
+		k, isK := ConstInt(y)
+		if !isK {
+			continue
+		}
+		if !cd.Truth {
+			switch op {
+			case token.LSS:
+				op = token.GEQ
+			case token.GEQ:
+				op = token.LSS
+			case token.GTR:
+				op = token.LEQ
+			case token.LEQ:
+				op = token.GTR
+			case token.EQL:
+				op = token.NEQ
+			case token.NEQ:
+				op = token.EQL
+			}
+		}
+		switch {
+		case op == token.GEQ && k >= 0, op == token.GTR && k >= -1, op == token.NEQ && k == -1, op == token.EQL && k >= 0:
+			return true
+		}
+	}
+	return false
 }
 
 // phiInit: the constant a loop counter starts with (its only non-self-derived edge).
@@ -314,6 +410,32 @@ func exactStoreRule(c *Ctx, r *Report) {
 		}
 		r.Analysed["numeric stores in normalizeValue"]++
 		r.Check(ok, "R06f", c.FnName(NV), "exact "+g.Name(), c.Pos(ci.Pos()), form, "the number stored is not the accessor's own result but "+form+": values can change on the way into the config (rounding, reformatting, truncation) and not come back")
+	}
+	// who may read a Go value by its kind: only normalizeValue, where the types with their own encoding (R06b) are
+	// looked at first. A second place that turns reflect.Value.Int()/Uint()/Float()/Bool()/String() into a node
+	// stores a time.Duration as a plain number of nanoseconds, which is read back as seconds.
+	for _, fn := range c.SrcFuncs() {
+		if fn.Pkg != c.SSA[""] || fn == NV || fn.Parent() == NV {
+			continue
+		}
+		for _, ci := range CallsIn(fn, false) {
+			g := ci.Common().StaticCallee()
+			if g == nil || allowed[g.Name()] == nil && g.Name() != "newString" || g.Pkg != c.SSA[""] {
+				continue
+			}
+			for _, a := range ci.Common().Args {
+				for _, s := range Sources(a) {
+					call, ok := s.(*ssa.Call)
+					if !ok || call.Call.StaticCallee() == nil {
+						continue
+					}
+					switch call.Call.StaticCallee().String() {
+					case "(reflect.Value).Int", "(reflect.Value).Uint", "(reflect.Value).Float", "(reflect.Value).Bool", "(reflect.Value).String":
+						r.Bad("R06f", c.FnName(fn), "kind accessor outside normalizeValue", c.Pos(ci.Pos()), "a Go value is read by its kind ("+call.Call.StaticCallee().Name()+"()) and stored with "+g.Name()+" outside normalizeValue: the types with an encoding of their own (time.Duration, regexp.Regexp, Config) are not looked at first — a Duration is stored as a number of nanoseconds and read back as seconds")
+					}
+				}
+			}
+		}
 	}
 }
 
